@@ -11,6 +11,7 @@ direct       : nothing left at any temporary location; the returned frame and an
 from __future__ import annotations
 
 import os
+import shutil
 
 import numpy as np
 
@@ -106,6 +107,36 @@ def run(tier: str, seed: int) -> int:
                 runs.append(r)
                 occ = sorted({k for part in packfs.reference_assign(r) for k in part})
                 chk.notes.setdefault("dup_occupancy", []).append(f"{nout}:{occ}")
+    # history: the input frame was packed before (it is indexed by hilbert_distance), then its Hilbert order changed - rows were filtered
+    # away / another geometry column was made active - and it is packed to parquet: the stored rows are in the NEW Hilbert order
+    import dask
+    import dask.dataframe as dd
+    from spatialpandas.io import read_parquet_dask
+    import tempfile
+    hroot = tempfile.mkdtemp(prefix="c10h-", dir=os.environ.get("TMPDIR") or "/var/tmp")
+    try:
+        with dask.config.set(scheduler="synchronous"):
+            hdf, _ = packfs.make_frame(24, seed + 91)
+            for hi, (label, change) in enumerate((("filtered", lambda f: f[f["id"] > 9]), ("other geometry", lambda f: f.set_geometry("other")))):
+                packed = dd.from_pandas(hdf, npartitions=3).pack_partitions(npartitions=2, p=7)
+                src = change(packed)
+                path = os.path.join(hroot, f"h{hi}.parq")
+                ret = src.pack_partitions_to_parquet(path, npartitions=3, p=5, _retry_args=packfs.RETRY)
+                chk.count()
+                for what, fr in (("returned frame", ret), ("independent read", read_parquet_dask(path, geometry=src.geometry.name))):
+                    pdf = src.compute()
+                    col = pdf[src.geometry.name].array
+                    want = dict(zip(pdf["id"], col.hilbert_distance(total_bounds=col.total_bounds, p=5)))
+                    for k in range(fr.npartitions):
+                        part = fr.get_partition(k).compute()
+                        keys = [int(v) for v in part.index]
+                        if keys != sorted(keys) or any(int(want[i]) != kv for i, kv in zip(part["id"], keys)):
+                            chk.violation(f"history|{label}", f"pack_partitions_to_parquet of a frame that was packed before and then changed ({label}): {what}, partition {k} holds "
+                                          f"(id, key) {list(zip(map(int, part['id']), keys))}; keys must be the rows' distances {[(int(i), int(want[i])) for i in part['id']]} in "
+                                          f"non-decreasing order", "", ctx=dict(site="pack_partitions_to_parquet", mode="history"))
+                            break
+    finally:
+        shutil.rmtree(hroot, ignore_errors=True)
     items = [(r, packfs.reference_assign(r), None) for r in runs]
     verdicts = packfs.validate_runs(items)
     recs, meta = [], []
